@@ -504,6 +504,14 @@ func (a *nilAn) freshFn(f *ssa.Function, seen map[*ssa.Function]bool) bool {
 // escapesIntoDocument: a fresh node value is stored somewhere or handed to
 // container.add/set as the value.
 func (a *nilAn) escapesIntoDocument(v ssa.Value) (bool, string) {
+	return a.escapesInto(v, map[ssa.Value]bool{})
+}
+
+func (a *nilAn) escapesInto(v ssa.Value, seen map[ssa.Value]bool) (bool, string) {
+	if seen[v] {
+		return false, ""
+	}
+	seen[v] = true
 	refs := v.Referrers()
 	if refs == nil {
 		return false, ""
@@ -520,15 +528,34 @@ func (a *nilAn) escapesIntoDocument(v ssa.Value) (bool, string) {
 		case *ssa.Return:
 			return true, "returned at " + a.b.posOf(x)
 		case *ssa.MakeInterface:
-			if e, why := a.escapesIntoDocument(x); e {
+			if e, why := a.escapesInto(x, seen); e {
 				return true, why
 			}
 		case *ssa.Phi:
-			if e, why := a.escapesIntoDocument(x); e {
+			if e, why := a.escapesInto(x, seen); e {
 				return true, why
 			}
 		case ssa.CallInstruction:
 			com := x.Common()
+			// handed to a library helper: what the helper does with its parameter counts
+			if f := com.StaticCallee(); f != nil && f.Pkg == a.b.Lib && len(f.Blocks) > 0 && !(f.Name() == "set" || f.Name() == "add") {
+				for i, arg := range com.Args {
+					if arg == v && i < len(f.Params) {
+						if e, why := a.escapesInto(f.Params[i], seen); e {
+							// a helper that returns its parameter hands it back to this caller
+							if strings.HasPrefix(why, "returned at ") {
+								if cv := x.Value(); cv != nil {
+									if e2, why2 := a.escapesInto(cv, seen); e2 {
+										return true, why2
+									}
+								}
+								continue
+							}
+							return true, why + " (through " + fname(f) + ")"
+						}
+					}
+				}
+			}
 			if isContainerInvoke(com, "add") || isContainerInvoke(com, "set") {
 				if len(com.Args) > 1 && com.Args[1] == v {
 					return true, "inserted into a container at " + a.b.posOf(x)
@@ -629,6 +656,7 @@ func ruleTypestate(c *Ctx) {
 		})
 	}
 	// T2: root slot stores
+	t2seen := map[rootSource]bool{}
 	for _, fn := range a.fns {
 		allInstrs(fn, func(i ssa.Instruction) {
 			st, ok := i.(*ssa.Store)
@@ -639,25 +667,32 @@ func ruleTypestate(c *Ctx) {
 			if !ok || !isNamed(pt.Elem(), "container") {
 				return
 			}
-			mi, ok := st.Val.(*ssa.MakeInterface)
-			if !ok {
-				if isNilConst(st.Val) {
+			for _, leaf := range phiLeaves(st.Val) {
+				if isNilConst(leaf) {
 					l.add("R-TYPESTATE", "v5", fmt.Sprintf("%s: root slot store of nil", fname(fn)), b.posOf(i), Violated, "the document slot is set to a nil container", true)
 				}
-				return
 			}
-			key := fmt.Sprintf("%s: root slot receives %s", fname(fn), roleOf(mi.X))
-			switch {
-			case isPtrToNamed(mi.X.Type(), "partialDoc"):
-				if g, why := a.guardedNonNil(mi.X, i); g {
-					l.add("R-TYPESTATE", "v5", key, b.posOf(i), Discharged, "*partialDoc is non-nil: "+why, true)
-				} else if why := a.mayNil(mi.X, i, map[ssa.Value]bool{}); why == "" {
-					l.add("R-TYPESTATE", "v5", key, b.posOf(i), Discharged, "*partialDoc is a fresh allocation / not from a nil source", true)
-				} else {
-					l.add("R-TYPESTATE", "v5", key, b.posOf(i), Violated, "the root slot may receive a nil *partialDoc ("+why+"); partialDoc's methods dereference their receiver", true)
+			for _, src := range b.rootSources(fn, st.Val, st) {
+				if t2seen[src] {
+					continue
 				}
-			case isPtrToNamed(mi.X.Type(), "partialArray"):
-				l.add("R-TYPESTATE", "v5", key, b.posOf(i), Discharged, "a nil *partialArray is a legal root (it spells `null`, pinned by TestAllCases/Case_62); its consumers are guarded (array-method obligations)", false)
+				t2seen[src] = true
+				fn, i := src.fn, src.at
+				mi := struct{ X ssa.Value }{src.v}
+				key := fmt.Sprintf("%s: root slot receives %s", fname(fn), roleOf(mi.X))
+				a.rootObjectDecoded(l, fn, mi.X, i)
+				switch {
+				case isPtrToNamed(mi.X.Type(), "partialDoc"):
+					if g, why := a.guardedNonNil(mi.X, i); g {
+						l.add("R-TYPESTATE", "v5", key, b.posOf(i), Discharged, "*partialDoc is non-nil: "+why, true)
+					} else if why := a.mayNil(mi.X, i, map[ssa.Value]bool{}); why == "" {
+						l.add("R-TYPESTATE", "v5", key, b.posOf(i), Discharged, "*partialDoc is a fresh allocation / not from a nil source", true)
+					} else {
+						l.add("R-TYPESTATE", "v5", key, b.posOf(i), Violated, "the root slot may receive a nil *partialDoc ("+why+"); partialDoc's methods dereference their receiver", true)
+					}
+				case isPtrToNamed(mi.X.Type(), "partialArray"):
+					l.add("R-TYPESTATE", "v5", key, b.posOf(i), Discharged, "a nil *partialArray is a legal root (it spells `null`, pinned by TestAllCases/Case_62); its consumers are guarded (array-method obligations)", false)
+				}
 			}
 		})
 	}
@@ -773,6 +808,38 @@ func (a *nilAn) nilAryHarmless(fn *ssa.Function, ci ssa.CallInstruction, recv ss
 		}
 		if all {
 			return true, strings.Join(whys, "; ")
+		}
+	}
+	// a parameter of a helper that does not store it, every call site of which hands in a scratch node
+	if p, ok := recv.(*ssa.Parameter); ok && fn.Signature.Recv() == nil {
+		if e, _ := a.escapesIntoDocument(p); !e {
+			idx := paramIdx(p)
+			sites, asValue := 0, false
+			allOK := true
+			var whys []string
+			for _, g := range a.fns {
+				allInstrs(g, func(j ssa.Instruction) {
+					if cj, ok := j.(ssa.CallInstruction); ok && cj.Common().StaticCallee() == fn {
+						sites++
+						if ok, why := scratch(cj.Common().Args[idx]); ok {
+							whys = append(whys, fname(g)+": "+why)
+						} else {
+							allOK = false
+						}
+					}
+					for _, op := range j.Operands(nil) {
+						if *op == ssa.Value(fn) {
+							if cj, ok := j.(ssa.CallInstruction); !ok || cj.Common().Value != ssa.Value(fn) {
+								asValue = true
+							}
+						}
+					}
+				})
+			}
+			if sites > 0 && allOK && !asValue {
+				sort.Strings(whys)
+				return true, fmt.Sprintf("parameter of a helper that does not store it; all %d call site(s) hand in a scratch node (%s)", sites, strings.Join(whys, "; "))
+			}
 		}
 	}
 	// behind isArray(*recv.raw)
@@ -1042,4 +1109,163 @@ func ruleStaleRaw(c *Ctx) {
 			})
 		}
 	}
+}
+
+// phiLeaves: the values a phi (of phis) selects among; v itself otherwise.
+func phiLeaves(v ssa.Value) []ssa.Value {
+	var out []ssa.Value
+	seen := map[ssa.Value]bool{}
+	var walk func(v ssa.Value)
+	walk = func(v ssa.Value) {
+		if seen[v] {
+			return
+		}
+		seen[v] = true
+		if p, ok := v.(*ssa.Phi); ok {
+			for _, e := range p.Edges {
+				walk(e)
+			}
+			return
+		}
+		out = append(out, v)
+	}
+	walk(v)
+	return out
+}
+
+// rootObjectDecoded (T5): an object container that is allocated in place, filled by a decode
+// of some text and installed as the root must be decoded from text known to start with '{'.
+// The text `null` decodes into an object container without a member map and without an error:
+// such a root fails every later operation and the final encoding, so whether the patch
+// succeeds is decided by what follows the operation that installed it. (Roots taken from a
+// node's doc field come from tryDoc/intoDoc, which refuse a null; see T1.)
+func (a *nilAn) rootObjectDecoded(l *Ledger, fn *ssa.Function, v ssa.Value, at ssa.Instruction) {
+	b := a.b
+	al, ok := v.(*ssa.Alloc)
+	if !ok || !isPtrToNamed(al.Type(), "partialDoc") {
+		return
+	}
+	// may v be the allocation (through the interface, a phi, or a load of a local slot)?
+	var mayBe func(v ssa.Value, seen map[ssa.Value]bool) bool
+	mayBe = func(v ssa.Value, seen map[ssa.Value]bool) bool {
+		if seen[v] {
+			return false
+		}
+		seen[v] = true
+		switch x := v.(type) {
+		case *ssa.Alloc:
+			return x == al
+		case *ssa.MakeInterface:
+			return mayBe(x.X, seen)
+		case *ssa.ChangeInterface:
+			return mayBe(x.X, seen)
+		case *ssa.Phi:
+			for _, e := range x.Edges {
+				if mayBe(e, seen) {
+					return true
+				}
+			}
+		case *ssa.UnOp:
+			if x.Op != token.MUL {
+				return false
+			}
+			slot, ok := x.X.(*ssa.Alloc)
+			if !ok {
+				return false
+			}
+			hit := false
+			allInstrs(fn, func(j ssa.Instruction) {
+				if st, ok := j.(*ssa.Store); ok && st.Addr == ssa.Value(slot) && mayBe(st.Val, seen) {
+					hit = true
+				}
+			})
+			return hit
+		}
+		return false
+	}
+	n := 0
+	allInstrs(fn, func(j ssa.Instruction) {
+		ci, ok := j.(ssa.CallInstruction)
+		if !ok {
+			return
+		}
+		cc := ci.Common()
+		var text ssa.Value
+		dest := false
+		for _, arg := range cc.Args {
+			if isByteSlice(arg.Type()) {
+				text = arg
+			} else if mayBe(arg, map[ssa.Value]bool{}) {
+				dest = true
+			}
+		}
+		if !dest || text == nil {
+			return
+		}
+		n++
+		key := fmt.Sprintf("%s: object root decoded in place #%d is decoded from text that starts with '{'", fname(fn), n)
+		if why := a.startsWithBrace(fn, text, j); why != "" {
+			l.add("R-TYPESTATE", "v5", key, b.posOf(j), Discharged, why, true)
+			return
+		}
+		l.add("R-TYPESTATE", "v5", key, b.posOf(j), Violated, "the text given to "+calleeLabel(cc)+" is not known to start with '{': the text `null` decodes without error into an object root that has no member map, which every later operation and the final encoding reject — the outcome then depends on the operations that follow (a later replacement of the root makes the patch succeed), and a null root set this way does not compare equal to null", true)
+	})
+}
+
+// startsWithBrace: the instruction is dominated by the true edge of a comparison of a byte
+// read from the text (directly, or through a library helper given the text) with '{'.
+func (a *nilAn) startsWithBrace(fn *ssa.Function, text ssa.Value, at ssa.Instruction) string {
+	var fromText func(v ssa.Value, d int) bool
+	fromText = func(v ssa.Value, d int) bool {
+		if d > 6 {
+			return false
+		}
+		if v == text {
+			return true
+		}
+		switch x := v.(type) {
+		case *ssa.UnOp:
+			return fromText(x.X, d+1)
+		case *ssa.IndexAddr:
+			return fromText(x.X, d+1)
+		case *ssa.Lookup:
+			return fromText(x.X, d+1)
+		case *ssa.Convert:
+			return fromText(x.X, d+1)
+		case *ssa.ChangeType:
+			return fromText(x.X, d+1)
+		case *ssa.Call:
+			for _, arg := range x.Call.Args {
+				if fromText(arg, d+1) {
+					return true
+				}
+			}
+		}
+		return false
+	}
+	for _, bb := range fn.Blocks {
+		ifi, ok := lastInstr(bb).(*ssa.If)
+		if !ok {
+			continue
+		}
+		bo, ok := ifi.Cond.(*ssa.BinOp)
+		if !ok || (bo.Op != token.EQL && bo.Op != token.NEQ) {
+			continue
+		}
+		x, y := bo.X, bo.Y
+		if _, isC := intConst(x); isC {
+			x, y = y, x
+		}
+		if n, isC := intConst(y); !isC || n != '{' || !fromText(x, 0) {
+			continue
+		}
+		succ := 0
+		if bo.Op == token.NEQ {
+			succ = 1
+		}
+		if edgeDominates(bb, succ, at.Block()) {
+			return "dominated by a first-byte == '{' test of the same text at " + a.b.posOf(ifi)
+		}
+	}
+	return ""
 }
